@@ -243,6 +243,57 @@ KNOWN_TAGS = ["Painted", "Contaminant", "FalseDuplicate", "Haplotig", "Unloc", "
 
 
 @st.composite
+def small_contig_hole_case(draw):
+    """
+    A contig of up to ~2.5 texels between two large ones, with or without gap rows next to it; the map breaks the
+    scaffold either side of it and leaves a HOLE: the left piece reaches a bases into the small contig, the right piece
+    starts b bases before its end (0 <= a, b <= about a texel). Not a map PretextView writes (C01 / C11 domain).
+    """
+    t = draw(st.sampled_from([10.0, 100.0, 7.5, 1.0, 33.3]))
+    T = max(1, int(t))
+    inp, mp = [], []
+    for i in range(draw(st.integers(1, 2))):
+        name = f"S{i + 1}"
+        rows = []
+        k = 0
+
+        def contig(ln):
+            nonlocal k
+            k += 1
+            return ["F", f"ctg{i + 1}_{k}", draw(st.integers(1, 20)), 0, draw(st.sampled_from([1, 1, -1]))], ln
+
+        def add(ln):
+            r, ln_ = contig(ln)
+            r[3] = r[2] + ln_ - 1
+            rows.append(r)
+
+        add(draw(st.integers(3, 8)) * T + draw(st.integers(0, T)))
+        if draw(st.booleans()):
+            rows.append(["G", draw(st.sampled_from([1, 200, T, 2 * T + 3])), "scaffold"])
+        small_len = draw(st.integers(1, max(2, int(2.5 * T))))
+        before = ref.rows_len(rows)
+        add(small_len)
+        if draw(st.booleans()):
+            rows.append(["G", draw(st.sampled_from([1, 200, T])), "scaffold"])
+        add(draw(st.integers(3, 8)) * T)
+        total = ref.rows_len(rows)
+        a = draw(st.integers(0, min(small_len, T + 2)))
+        b = draw(st.integers(0, min(small_len - a, T + 2)))
+        e1 = before + a
+        s2 = before + small_len - b + 1
+        inp.append([name, rows])
+        tags = ["Painted"] if draw(st.booleans()) else []
+        if e1 >= 1:
+            mp.append([f"Scaffold_{len(mp) + 1}", [["F", name, 1, e1, draw(st.sampled_from([1, 1, -1])), list(tags)]]])
+        if s2 <= total:
+            mp.append([f"Scaffold_{len(mp) + 1}", [["F", name, s2, total, draw(st.sampled_from([1, 1, -1])), list(tags)]]])
+    if draw(st.booleans()) and len(mp) >= 2:
+        # both pieces in one Pretext scaffold
+        mp = [["Scaffold_1", [x for k_, (_n, rws) in enumerate(mp) for x in ([list(PRETEXT_GAP)] if k_ else []) + rws]]]
+    return {"t": texel_str(t), "input": inp, "map": mp, "prefix": "SUPER_", "kind": "small_contig_hole"}
+
+
+@st.composite
 def perturb_map(draw, map_plain, input_plain, t):
     """C01: drop / duplicate / reverse-duplicate / shift / replace / overshoot pieces, sprinkle tags."""
     lengths = {name: ref.rows_len(rows) for name, rows in input_plain}
